@@ -874,6 +874,11 @@ func (p *parser) parseFuncSpecBody(fs *FuncSpec) {
 			gp.What = p.ident() // call | mapupdate | store | entry | return | send
 			if p.peek().k == "int" {
 				gp.Ordinal, _ = strconv.Atoi(p.next().s)
+			} else if p.peek().s == "every" {
+				// the block runs at EVERY event of this kind (every call of the named function): used for trace updates,
+				// so that an added second call cannot escape the trace
+				p.next()
+				gp.Ordinal = -1
 			} else {
 				gp.Ordinal = 1
 			}
@@ -997,7 +1002,7 @@ func (p *parser) parseFile() (sf *SpecFile, err error) {
 			sf.Types = append(sf.Types, tc)
 		case "method":
 			p.next()
-			q := p.qualIdent()
+			q := p.parsePath()
 			k := strings.LastIndex(q, ".")
 			if k < 0 {
 				p.fail("method Iface.Method expected")
